@@ -40,6 +40,34 @@ CLAIMED = {
         technique="TLA+ abstract search model checked by TLC; TLC trace validation of recorded segmentations, scores and "
                   "frame accounting",
         design="4/C03"),
+    "C11": dict(
+        text="fsg_search_lattice is transcribed as a function of the history table (node identity, one-null-step link "
+             "rule, best-score link merge, start/end selection or synthesis, deletion of nodes not reaching the end) and "
+             "composed with the abstract search model, so TLC checks the lattice predicate (one start/one end, acyclic, "
+             "every node on a start-end path, node/link time consistency, every path a grammar path, first-best present) "
+             "for the lattice of EVERY abstract search outcome at the bounds, mid-utterance and final; lattices dumped from "
+             "the real decoder through the public node/link iterators over the decode matrix are validated by TLC against "
+             "the same predicate, together with 'asking again returns the same object'.",
+        note="Trusted: TLC; recorder; G = FSG before silence/alternate arcs; <s>/</s> nodes are synthetic. One genuine "
+             "defect is recorded (known_findings.json: a first-best that is a single word instance from frame 0 is deleted "
+             "from the lattice); the model carries the same named exception (KnownGap) and nothing else is excused.",
+        technique="TLA+ transcription of the lattice builder over an abstract search model, checked by TLC; TLC trace "
+                  "validation of dumped real lattices",
+        design="4/C11"),
+    "C12": dict(
+        text="The A* N-best search (exact-heuristic agenda, path_insert with the MAX_PATHS cap, path_extend, astar_next) is "
+             "transcribed and TLC runs it on every DAG with 4 (thorough: 5) nodes, all link-score assignments and all seed "
+             "sets: hypotheses come out in non-increasing order, each is a start-to-end path, the first has the best-path "
+             "score, nothing is lost without truncation. On lattices dumped from the real decoder TLC recomputes the exact "
+             "max-plus best path and checks lattice_bestpath's path and score, N-best monotonicity, that every N-best / "
+             "best-path word sequence is a start-to-end path of the dumped DAG, and posterior sanity (link and best-path "
+             "posteriors <= 1, forward total = backward total) within the log-add rounding bound.",
+        note="Trusted: TLC; recorder (alphas/betas/norm read from public lattice fields, backward total summed by the "
+             "harness with logmath_add); tolerance 4 log units per link. No arbitrary DAG can be injected into the C code "
+             "through the API, so the real-code side is bound by recorded lattices only.",
+        technique="TLA+ transcription of A* checked by TLC on all small DAGs; TLC trace validation of best path, N-best and "
+                  "posteriors of dumped real lattices",
+        design="4/C12"),
 }
 
 PENDING = "not built yet in this round (planned, see DESIGN.md section 4); no check is registered, so nothing is claimed"
